@@ -21,8 +21,7 @@ RULE = ("a case = one tree instance (shape, labels, dict insertion order incl. o
         "add_parent_to_root / renaming, child order) with all its queries: exhaustive over all ordered "
         "rooted trees with <= 7 nodes (thorough: also all 429 trees with 8 nodes) x several instances each, "
         "random trees up to 40 nodes, and a few real TTNS/TTNO instances (SandwichCache with real "
-        "contractions, TDVP constructor, the event sequences of the three TDVP sweeps and the tagged cache "
-        "reads of BUG / FixedBUG runs against the C05 / C09 machines). "
+        "contractions, TDVP constructor: update path, segments, cache toward its first node). "
         "non-trivial = distinct instance with >= 3 nodes")
 PARTIAL = [
     "the theorems are stated about the structural model on RTree; its equality with the line-by-line flat port "
@@ -36,9 +35,9 @@ PARTIAL = [
     "correspondence + oracle",
     "init_cache_but_one is reduced to its keys in creation order (init_cache_keys); that its internal build order "
     "reads only blocks already built is checked per run by the recording contract_any, not proved",
-    "the C05 discipline machine and the C09 environment machine (theorems Ptn.C05.Disc.*, Ptn.C09.Env.*) are tied "
-    "to the real TDVP / BUG classes by the event comparison of the 'real' cases only; a rank-adaptive BUG run that "
-    "raises (known finding F-C09) is skipped and tallied",
+    "the event sequences of the TDVP sweeps and the environment reads of BUG (models Ptn.C05.Disc, Ptn.C09.Env, "
+    "driver queries `events` / `bugenv`) are observed by code of this file (run_real_parts) but run and judged by the "
+    "checks of C05 and C09, not by C17, whose property is navigation only",
     "the stronger statement 'update path = post-order of the re-rooted tree' has no theorem "
     "(next_hop_is_new_parent is segs_point_to_last); every clause of the property statement has one",
 ]
@@ -219,8 +218,20 @@ def gen_cases(ctx):
                       "shape": rng.choice(["uniform", "uniform", "chain", "star", "binaryish", "caterpillar"]),
                       "variant": rng.choice(variants), "pairs": rng.randrange(10 ** 9)})
     for _ in range(ctx.n(10, 100)):
-        cases.append({"kind": "real", "n": rng.randint(2, 7), "seed": rng.randrange(10 ** 9)})
+        cases.append({"kind": "real", "n": rng.randint(2, 7), "seed": rng.randrange(10 ** 9), "parts": ["nav"]})
     return cases
+
+
+def run_real_parts(ctx, parts, count):
+    """Entry point for the checks of C05 (parts=['events']) and C09 (parts=['bugenv']): real TTNS/TTNO pairs on
+    random trees, the observed event / environment-read traces compared with the Lean models."""
+    rng = ctx.subrng("c17-real-" + "-".join(parts))
+    for _ in range(count):
+        if ctx.time_left() < 0:
+            break
+        case = {"kind": "real", "n": rng.randint(2, 7), "seed": rng.randrange(10 ** 9), "parts": list(parts),
+                "via": "c17"}
+        run_case(ctx, case)
 
 
 # ------------------------------------------------------------------ queries
@@ -337,6 +348,11 @@ def impl_answer(ts, q, adj, extra) -> str:
     except Exception as e:                  # noqa: BLE001
         extra_exc = f"{type(e).__name__}: {str(e)[:80]}"
         impl_answer.last_exc = extra_exc
+        if not hasattr(impl_answer, "exc_of"):
+            impl_answer.exc_of = {}
+        if len(impl_answer.exc_of) > 5000:
+            impl_answer.exc_of.clear()
+        impl_answer.exc_of[(id(extra), tuple(q))] = extra_exc
         return "err"
     raise ValueError(q)
 
@@ -381,7 +397,7 @@ def parse_ids(ans: str) -> List[str]:
     return [nm(int(t)) for t in ans.split()[1:]]
 
 
-def oracle(root, nodes, adj, queries, answers) -> List[str]:
+def oracle(root, nodes, adj, queries, answers, errkey=None) -> List[str]:
     """Property predicate on the implementation's answers; returns the list of violations."""
     probs: List[str] = []
     ids = [k for k, _, _ in nodes]
@@ -409,7 +425,8 @@ def oracle(root, nodes, adj, queries, answers) -> List[str]:
             # outside the property (it speaks about nodes of the tree); only path a a is defined
             continue
         if ans == "err":
-            probs.append(f"{' '.join(q)}: raised {getattr(impl_answer, 'last_exc', '?')}")
+            exc = getattr(impl_answer, "exc_of", {}).get((errkey, tuple(q)), getattr(impl_answer, "last_exc", "?"))
+            probs.append(f"{' '.join(q)}: raised {exc}")
             continue
         if kind == "path":
             want = bfs_path(adj, args[0], args[1], bc)
@@ -613,7 +630,7 @@ def finish(ctx, case, p, outs):
             if amap[q] != m and bad < 6:
                 bad += 1
                 ctx.corr_fail(case, f"{' '.join(q)}: impl '{amap[q]}' structural model '{m}'")
-    probs = list(p["extra"]) + oracle(p["root"], p["nodes"], p["adj"], queries, answers)
+    probs = list(p["extra"]) + oracle(p["root"], p["nodes"], p["adj"], queries, answers, errkey=id(p["extra"]))
     if probs:
         ctx.oracle_fail(case, "; ".join(probs[:3]))
 
@@ -665,8 +682,11 @@ def prepare_real(ctx, case):
                 fmt_segs(algo.update_path, algo.orthogonalization_path))
     except Exception as e:                  # noqa: BLE001
         extra.append(f"TDVP constructor raised {type(e).__name__}: {str(e)[:80]}")
-    events = observe_events(ttns, ttno)
-    bugenv = observe_bugenv(ttns, ttno)
+    # the event / environment traces tie the models Ptn.C05.Disc and Ptn.C09.Env to the code: they are run and
+    # judged by the checks of C05 and C09 (case["parts"]), not by C17, whose property is navigation only
+    parts = case.get("parts", ["nav"])
+    events = observe_events(ttns, ttno) if "events" in parts else {}
+    bugenv = observe_bugenv(ttns, ttno) if "bugenv" in parts else {}
     tree = model_tree_tokens(root, nodes)
     qs = " ".join("q " + " ".join(q) for q in queries)
     return {"kind": "real", "events": events, "bugenv": bugenv, "root": root, "nodes": nodes, "adj": adj, "queries": queries, "answers": answers,
@@ -850,6 +870,8 @@ def finish_real(ctx, case, p, outs):
             ctx.corr_fail(case, f"{kind}: environment reads differ from the model: only impl "
                                 f"{sorted(obs - bug_model)[:3]} only model {sorted(bug_model - obs)[:3]}")
     for (_, which), m in zip(EVENT_KINDS, ev_model[:3]):
+        if which not in p["events"]:
+            continue
         obs = p["events"][which]
         if obs.split(" (")[0] != m:
             ctx.corr_fail(case, f"events of one {which} time step: impl '{obs[:160]}' model '{m[:160]}'")
@@ -874,7 +896,7 @@ def finish_real(ctx, case, p, outs):
             want = sorted(tuple(nm(int(v)) for v in t.split(">")) for t in model[qi].split()[1:])
             if keys != want:
                 ctx.corr_fail(case, f"TDVP constructor: cache keys {keys} model {want}")
-    probs += oracle(p["root"], p["nodes"], p["adj"], queries, answers)
+    probs += oracle(p["root"], p["nodes"], p["adj"], queries, answers, errkey=id(p["extra"]))
     if p["tdvp"] is not None:
         up, keys, segs = p["tdvp"]
         first = up.split()[1]
